@@ -28,6 +28,21 @@ Qed.
 Lemma ev_bool_ok b : ev_bool (e_bool b) = Some b.
 Proof. destruct b; vm_compute; reflexivity. Qed.
 
+(* ---------- generic list lemmas ---------- *)
+Lemma mapM_map {X Y} (f : X -> option Y) (g : Y -> X) (l : list Y) :
+  (forall y, In y l -> f (g y) = Some y) -> mapM f (map g l) = Some l.
+Proof.
+  induction l as [|y r IH]; intro H; simpl; [reflexivity|].
+  rewrite (H y) by (left; reflexivity). rewrite IH by (intros; apply H; right; assumption). reflexivity.
+Qed.
+
+Lemma mapM_map2 {X Y Z} (f : X -> option Z) (g : Y -> X) (h : Y -> Z) (l : list Y) :
+  (forall y, In y l -> f (g y) = Some (h y)) -> mapM f (map g l) = Some (map h l).
+Proof.
+  induction l as [|y r IH]; intro H; simpl; [reflexivity|].
+  rewrite (H y) by (left; reflexivity). rewrite IH by (intros; apply H; right; assumption). reflexivity.
+Qed.
+
 Lemma unparse_wf v : wf_val v = true -> unparse_const v = py_repr v.
 Proof.
   destruct v; try reflexivity. unfold unparse_const. simpl wf_val. simpl py_repr. intro W.
@@ -38,13 +53,71 @@ Proof.
   reflexivity.
 Qed.
 
-Lemma lit_e_val v : wf_val v = true -> lit (e_val v) = Some v.
-Proof. intro W. unfold e_val. rewrite unparse_wf by assumption. apply lit_repr. exact W. Qed.
+(* atoms: one constant, read back by literal evaluation; +-inf travel as 1e309 / -1e309 *)
+Lemma ev_val_atom v : is_atom v = true -> dv_val v = true -> ev_val (EConst (unparse_const v)) = Some v.
+Proof.
+  destruct v; try discriminate; intros _ D.
+  - vm_compute. reflexivity.
+  - destruct b; vm_compute; reflexivity.
+  - cbn [ev_val unparse_const]. rewrite (repr_roundtrip (PInt z)) by reflexivity. reflexivity.
+  - cbn [dv_val] in D. apply orb_true_iff in D as [D|D].
+    + apply andb_true_iff in D as [W N]. apply negb_true_iff in N.
+      cbn [ev_val]. rewrite (unparse_wf (PFloat lexeme)) by exact W.
+      rewrite (repr_roundtrip (PFloat lexeme)) by exact W.
+      unfold inf_spelling in N. apply orb_false_iff in N as [N1 N2].
+      unfold canon_float. rewrite N1, N2. reflexivity.
+    + unfold inf_lex in D. apply orb_true_iff in D as [D|D]; apply chars_eqb_eq in D; subst;
+        vm_compute; reflexivity.
+  - cbn [ev_val unparse_const]. rewrite (repr_roundtrip (PStr s)) by reflexivity. reflexivity.
+Qed.
 
-Lemma lit_empty_dict : lit (EConst (s2l "{}")) = Some (PDict []).
-Proof. vm_compute. reflexivity. Qed.
-Lemma lit_empty_list : lit (EConst (s2l "[]")) = Some (PList []).
-Proof. vm_compute. reflexivity. Qed.
+Lemma ev_val_list l : ev_val (EList l) = option_map PList (mapM ev_val l).
+Proof.
+  cbn [ev_val]. f_equal. induction l as [|x r IH]; [reflexivity|].
+  cbn [mapM]. rewrite <- IH. reflexivity.
+Qed.
+
+Definition ev_entry (p : pyexpr * pyexpr) : option (chars * pyval) :=
+  match ev_str (fst p), ev_val (snd p) with Some k, Some v => Some (k, v) | _, _ => None end.
+
+Lemma ev_val_dict kv : ev_val (EDict kv) = option_map (fun l => PDict (dict_norm l)) (mapM ev_entry kv).
+Proof.
+  cbn [ev_val]. f_equal. induction kv as [|[k x] r IH]; [reflexivity|].
+  cbn [mapM]. rewrite <- IH. unfold ev_entry, ev_str, lit. cbn [fst snd].
+  destruct k; try reflexivity.
+  destruct (py_literal_eval src) as [[]|]; try reflexivity.
+  destruct (ev_val x); [|reflexivity].
+  match goal with |- match ?X with _ => _ end = _ => destruct X end; reflexivity.
+Qed.
+
+Definition gen_entry (p : chars * pyval) : pyexpr * pyexpr := (e_str (fst p), gen_dv (snd p)).
+Lemma gen_dv_dict kv : gen_dv (PDict kv) = EDict (map gen_entry kv).
+Proof.
+  cbn [gen_dv]. f_equal. induction kv as [|[k x] r IH]; [reflexivity|].
+  cbn [map]. rewrite <- IH. reflexivity.
+Qed.
+
+(* defaults emitted as displays (fix 060db67): every default value, non-finite floats included *)
+Theorem ev_val_gen_dv v : dv_val v = true -> ev_val (gen_dv v) = Some v.
+Proof.
+  induction v using pyval_ind2; intro D.
+  - exact (ev_val_atom PNone eq_refl D).
+  - exact (ev_val_atom (PBool b) eq_refl D).
+  - exact (ev_val_atom (PInt z) eq_refl D).
+  - exact (ev_val_atom (PFloat l) eq_refl D).
+  - exact (ev_val_atom (PStr s) eq_refl D).
+  - change (gen_dv (PList l)) with (EList (map gen_dv l)). rewrite ev_val_list.
+    cbn [dv_val] in D. rewrite mapM_map; [reflexivity|].
+    intros y Hin. rewrite Forall_forall in H. apply H; [exact Hin|].
+    rewrite forallb_forall in D. apply D. exact Hin.
+  - rewrite gen_dv_dict, ev_val_dict. cbn [dv_val] in D. apply andb_true_iff in D as [N D].
+    rewrite (mapM_map ev_entry gen_entry).
+    + cbn [option_map]. rewrite dict_norm_nodup by exact N. reflexivity.
+    + intros [k x] Hin. unfold ev_entry, gen_entry. cbn [fst snd]. rewrite ev_str_e_str.
+      rewrite Forall_forall in H. assert (Hx := H (k, x) Hin). cbn [snd] in Hx.
+      rewrite Hx; [reflexivity|].
+      rewrite forallb_forall in D. apply (D (k, x) Hin).
+Qed.
 
 (* ---------- names that are not shadowed ---------- *)
 Definition fresh (tm : chars) : Prop := forall n, In n BUILTIN_NAMES -> chars_eqb n tm = false.
@@ -72,27 +145,13 @@ Lemma as_call_ok_eager tm f args kws :
 Proof. unfold as_call, call, gname. rewrite chars_eqb_refl. reflexivity. Qed.
 
 Lemma ev_default_ok tm d : fresh tm ->
-  match d with Some v => wf_val v = true | None => True end ->
+  match d with Some v => dv_val v = true | None => True end ->
   ev_default true tm (e_default d) = Some d.
 Proof.
   intros F W. destruct d as [v|]; unfold ev_default, e_default.
-  - unfold e_val at 1. rewrite gname_const. rewrite lit_e_val by assumption. reflexivity.
+  - assert (G : gname true tm (gen_dv v) "Undefined" = false) by (destruct v; reflexivity).
+    rewrite G, ev_val_gen_dv by assumption. reflexivity.
   - rewrite gname_ok; [reflexivity|]. apply F. in_builtin.
-Qed.
-
-(* ---------- generic list lemmas ---------- *)
-Lemma mapM_map {X Y} (f : X -> option Y) (g : Y -> X) (l : list Y) :
-  (forall y, In y l -> f (g y) = Some y) -> mapM f (map g l) = Some l.
-Proof.
-  induction l as [|y r IH]; intro H; simpl; [reflexivity|].
-  rewrite (H y) by (left; reflexivity). rewrite IH by (intros; apply H; right; assumption). reflexivity.
-Qed.
-
-Lemma mapM_map2 {X Y Z} (f : X -> option Z) (g : Y -> X) (h : Y -> Z) (l : list Y) :
-  (forall y, In y l -> f (g y) = Some (h y)) -> mapM f (map g l) = Some (map h l).
-Proof.
-  induction l as [|y r IH]; intro H; simpl; [reflexivity|].
-  rewrite (H y) by (left; reflexivity). rewrite IH by (intros; apply H; right; assumption). reflexivity.
 Qed.
 
 Lemma as_dict_EDict {X} (key : X -> chars) (val : X -> pyexpr) (l : list X) :
@@ -108,13 +167,7 @@ Qed.
 Lemma as_dict_mk {X} (key : X -> chars) (val : X -> pyexpr) (l : list X) :
   nodup_keys (map key l) = true ->
   as_dict (mk_dict (map (fun x => (e_str (key x), val x)) l)) = Some (map (fun x => (key x, val x)) l).
-Proof.
-  intro N. destruct l as [|x r].
-  - simpl map. unfold mk_dict. unfold as_dict. rewrite lit_empty_dict. reflexivity.
-  - change (mk_dict (map (fun x0 => (e_str (key x0), val x0)) (x :: r)))
-      with (EDict (map (fun x0 => (e_str (key x0), val x0)) (x :: r))).
-    apply as_dict_EDict. exact N.
-Qed.
+Proof. apply as_dict_EDict. Qed.
 
 (* ---------- name resolution ---------- *)
 Definition info (t : ftype) : chars * (chars * chars) := (t_name t, (class_of (t_def t), t_name t)).
@@ -231,7 +284,7 @@ Lemma kw_optstr_hit k kws o : kw k kws = Some (e_optstr o) -> kw_optstr k kws = 
 Proof. intro H. unfold kw_optstr. rewrite H. apply ev_optstr_ok. Qed.
 
 Lemma ev_arg_ok cls S tm a : fresh tm -> chars_eqb (s2l cls) tm = false ->
-  wf_arg wf_val (s_types S) a = true ->
+  wf_arg dv_val (s_types S) a = true ->
   ev_arg cls true tm (env_of (user_types S)) (a_name a, gen_arg cls (s_types S) tm a) = Some a.
 Proof.
   intros F Hc W. unfold wf_arg in W. apply andb_true_iff in W as [W1 W2].
@@ -248,7 +301,7 @@ Proof.
 Qed.
 
 Lemma ev_arg_list cls S tm l b : fresh tm -> chars_eqb (s2l cls) tm = false ->
-  forallb (wf_arg wf_val (s_types S)) l = true -> b = true ->
+  forallb (wf_arg dv_val (s_types S)) l = true -> b = true ->
   mapM (ev_arg cls b tm (env_of (user_types S)))
        (map (fun a => (a_name a, gen_arg cls (s_types S) tm a)) l) = Some l.
 Proof.
@@ -256,7 +309,7 @@ Proof.
   apply ev_arg_ok; try assumption. rewrite forallb_forall in W. apply W. exact Hin.
 Qed.
 
-Lemma ev_args_ok S tm l : fresh tm -> wf_args wf_val (s_types S) l = true ->
+Lemma ev_args_ok S tm l : fresh tm -> wf_args dv_val (s_types S) l = true ->
   ev_args "GraphQLArgument" true tm (env_of (user_types S)) (gen_args (s_types S) tm l) = Some l.
 Proof.
   intros F W. unfold wf_args in W. apply andb_true_iff in W as [N W].
@@ -267,7 +320,7 @@ Qed.
 
 Local Opaque ev_args gen_args.
 
-Lemma ev_field_ok S tm f : fresh tm -> wf_field wf_val (s_types S) f = true ->
+Lemma ev_field_ok S tm f : fresh tm -> wf_field dv_val (s_types S) f = true ->
   ev_field true tm (env_of (user_types S)) (f_name f, gen_field (s_types S) tm f) = Some f.
 Proof.
   intros F W. unfold wf_field in W. apply andb_true_iff in W as [W1 W2].
@@ -283,24 +336,24 @@ Proof.
   destruct f; reflexivity.
 Qed.
 
-Lemma ev_fields_ok S tm fs : fresh tm -> wf_fields wf_val (s_types S) fs = true ->
+Lemma ev_fields_ok S tm fs : fresh tm -> wf_fields dv_val (s_types S) fs = true ->
   ev_fields false tm (env_of (user_types S)) (gen_field_map (s_types S) tm fs) = Some fs.
 Proof.
   intros F W. unfold wf_fields in W. apply andb_true_iff in W as [N W].
   unfold ev_fields, gen_field_map. destruct fs as [|f r].
-  - cbn [unthunk]. unfold as_dict. rewrite lit_empty_dict. reflexivity.
+  - reflexivity.
   - cbn [unthunk].
     rewrite (as_dict_EDict f_name (gen_field (s_types S) tm)) by assumption.
     apply mapM_map. intros x Hin. apply ev_field_ok; [assumption|].
     rewrite forallb_forall in W. apply W. exact Hin.
 Qed.
 
-Lemma ev_input_fields_ok S tm fs : fresh tm -> wf_args wf_val (s_types S) fs = true ->
+Lemma ev_input_fields_ok S tm fs : fresh tm -> wf_args dv_val (s_types S) fs = true ->
   ev_input_fields false tm (env_of (user_types S)) (gen_input_field_map (s_types S) tm fs) = Some fs.
 Proof.
   intros F W. unfold wf_args in W. apply andb_true_iff in W as [N W].
   unfold ev_input_fields, gen_input_field_map. destruct fs as [|f r].
-  - cbn [unthunk]. unfold as_dict. rewrite lit_empty_dict. reflexivity.
+  - reflexivity.
   - cbn [unthunk].
     rewrite (as_dict_EDict a_name (gen_arg "GraphQLInputField" (s_types S) tm)) by assumption.
     apply ev_arg_list; auto. apply F. in_builtin.
@@ -313,7 +366,7 @@ Lemma ev_type_list_ok S tm ann names : fresh tm ->
   ev_type_list false tm (env_of (user_types S)) ann (gen_type_list tm ann names) = Some names.
 Proof.
   intros F _ W. unfold ev_type_list, gen_type_list. destruct names as [|n r].
-  - cbn [unthunk]. rewrite lit_empty_list. reflexivity.
+  - reflexivity.
   - cbn [unthunk]. rewrite as_call_ok by (apply F; in_builtin). cbn [map].
     rewrite gname_ok by (apply F; in_builtin).
     assert (G2 : gname false tm (EName (s2l ann)) ann = true).
@@ -326,7 +379,7 @@ Proof.
     rewrite (user_type_env _ _ _ E). rewrite W. reflexivity.
 Qed.
 
-Lemma ev_enum_value_ok tm v : wf_val (ev_value v) = true ->
+Lemma ev_enum_value_ok tm v : is_atom (ev_value v) && dv_val (ev_value v) = true ->
   ev_enum_value false tm (ev_name v, gen_enum_value v) = Some v.
 Proof.
   intro W. unfold ev_enum_value, gen_enum_value. cbn [snd fst].
@@ -334,7 +387,7 @@ Proof.
   assert (K1 : kw "value" [(s2l "value", e_val (ev_value v));
       (s2l "description", e_optstr (ev_desc v)); (s2l "deprecation_reason", e_optstr (ev_depr v))]
       = Some (e_val (ev_value v))) by reflexivity.
-  rewrite K1, lit_e_val by assumption.
+  apply andb_true_iff in W as [W1 W2]. rewrite K1. unfold e_val. rewrite ev_val_atom by assumption.
   rewrite (kw_optstr_hit "description" _ (ev_desc v)) by reflexivity.
   rewrite (kw_optstr_hit "deprecation_reason" _ (ev_depr v)) by reflexivity.
   destruct v; reflexivity.
@@ -342,7 +395,7 @@ Qed.
 
 (* ---------- named types ---------- *)
 Local Opaque ev_fields ev_input_fields ev_type_list gen_field_map gen_input_field_map gen_type_list
-  ev_enum_value gen_enum_value lit.
+  ev_enum_value gen_enum_value lit ev_val.
 
 Lemma ev_type_head_ok A tm t :
   ev_type_head (gen_named_type A tm t) = Some (class_of (t_def t), t_name t).
@@ -352,7 +405,8 @@ Proof.
 Qed.
 
 Lemma enum_values_ok tm vs :
-  nodup_keys (map ev_name vs) = true -> forallb (fun v => wf_val (ev_value v)) vs = true ->
+  nodup_keys (map ev_name vs) = true ->
+  forallb (fun v => is_atom (ev_value v) && dv_val (ev_value v)) vs = true ->
   match as_dict (mk_dict (map (fun v => (e_str (ev_name v), gen_enum_value v)) vs)) with
   | Some kv => mapM (ev_enum_value false tm) kv
   | None => None
@@ -363,7 +417,7 @@ Proof.
   rewrite forallb_forall in W. apply W. exact Hin.
 Qed.
 
-Lemma ev_named_type_ok S tm t : fresh tm -> wf_type wf_val (s_types S) t = true ->
+Lemma ev_named_type_ok S tm t : fresh tm -> wf_type dv_val (s_types S) t = true ->
   ev_named_type tm (env_of (user_types S)) (gen_named_type (s_types S) tm t) = Some t.
 Proof.
   intros F W. unfold wf_type in W.
@@ -406,7 +460,7 @@ Lemma ev_optstr_call f args kws : ev_optstr (ECall f args kws) = None.
 Proof. reflexivity. Qed.
 Local Opaque lit gen_args ev_optstr.
 
-Lemma ev_directive_ok S tm d : fresh tm -> wf_args wf_val (s_types S) (d_args d) = true ->
+Lemma ev_directive_ok S tm d : fresh tm -> wf_args dv_val (s_types S) (d_args d) = true ->
   ev_directive tm (env_of (user_types S)) (gen_directive (s_types S) tm d) = Some d.
 Proof.
   intros F W. unfold ev_directive, gen_directive.
@@ -448,9 +502,7 @@ Proof.
 Qed.
 
 Lemma as_list_mk l : as_list (mk_list l) = Some l.
-Proof.
-  destruct l; [|reflexivity]. unfold mk_list, as_list. rewrite lit_empty_list. reflexivity.
-Qed.
+Proof. reflexivity. Qed.
 
 Theorem schema_roundtrip S tm sn :
   wf_fschema S tm = true -> eval_module (gen_module S tm sn) = Some (strip_std S).
@@ -528,7 +580,8 @@ Section Mono.
     - intro H. apply andb_true_iff in H as [A B]. rewrite A. simpl. apply wf_fields_mono; auto.
     - intro H. apply andb_true_iff in H as [A B]. rewrite A. simpl. apply wf_fields_mono; auto.
     - intro H. apply andb_true_iff in H as [A B]. rewrite A. simpl.
-      eapply forallb_impl; [|exact B]. intros x; apply Hv.
+      eapply forallb_impl; [|exact B]. intros x Hx. apply andb_true_iff in Hx as [X1 X2].
+      rewrite X1, (Hv _ X2). reflexivity.
     - apply wf_args_mono.
   Qed.
   Lemma wf_gen_mono S : wf_gen vok1 S = true -> wf_gen vok2 S = true.
@@ -541,15 +594,25 @@ Section Mono.
   Qed.
 End Mono.
 
-Theorem schema_roundtrip_guarded S tm sn :
-  wf_gen finite_val S = true -> mem_chars tm BUILTIN_NAMES = false ->
-  eval_module (gen_module S tm sn) = Some (strip_std S).
+(* dv_val is py_val minus nan (and minus the non-repr spellings 1e309 / -1e309) *)
+Lemma dv_is_py v : dv_val v = true -> py_val v = true.
 Proof.
-  intros W F. apply schema_roundtrip. unfold wf_fschema. rewrite F. simpl.
-  eapply wf_gen_mono; [|exact W]. apply wf_of_finite.
+  induction v using pyval_ind2; cbn [dv_val py_val]; auto.
+  - intro D. apply orb_true_iff in D as [D|D].
+    + apply andb_true_iff in D as [D _]. rewrite D. reflexivity.
+    + unfold inf_lex in D. unfold nonfinite_lex. apply orb_true_iff in D as [D|D]; rewrite D;
+        rewrite ?orb_true_r; reflexivity.
+  - intro D. rewrite forallb_forall in *. intros x Hin. rewrite Forall_forall in H. apply H; auto.
+  - intro D. apply andb_true_iff in D as [N D]. rewrite N. cbn [andb].
+    rewrite forallb_forall in *. intros x Hin. rewrite Forall_forall in H. apply H; auto.
 Qed.
 
-Lemma finite_is_valid S : wf_gen finite_val S = true -> valid_fschema S = true.
+Theorem schema_roundtrip_guarded S tm sn :
+  wf_gen dv_val S = true -> mem_chars tm BUILTIN_NAMES = false ->
+  eval_module (gen_module S tm sn) = Some (strip_std S).
 Proof.
-  apply wf_gen_mono. unfold finite_val. intros v H. apply andb_true_iff in H. tauto.
+  intros W F. apply schema_roundtrip. unfold wf_fschema. rewrite F. exact W.
 Qed.
+
+Lemma guard_is_valid S : wf_gen dv_val S = true -> valid_fschema S = true.
+Proof. apply wf_gen_mono. apply dv_is_py. Qed.
